@@ -994,3 +994,15 @@ func deferSiteOf(fn *ssa.Function) (Site, bool) {
 	})
 	return res, n == 1
 }
+
+// closureBinding: the value the parent binds to the i-th free variable of the function literal g (nil if g is not
+// made exactly there).
+func closureBinding(parent, g *ssa.Function, i int) ssa.Value {
+	var out ssa.Value
+	eachInstr(parent, func(s Site) {
+		if mc, ok := s.Instr.(*ssa.MakeClosure); ok && mc.Fn == g && i < len(mc.Bindings) {
+			out = rootCell(mc.Bindings[i])
+		}
+	})
+	return out
+}
